@@ -15,6 +15,7 @@ REAL = "real code from the /repo working tree"
 PROPERTIES = {}
 NOT_APPLICABLE = {}
 ENGINE_KINDS = {
+    "alias": "operation histories over an object graph (molecules, copies, deep copies, residues, atoms, live views, System hand-outs through real files, Alignment-stored molecules) checked after every operation against an aliasing model",
     "grosys": "one SystemGro shared by several live iterators and one-shot indexed/sliced accesses; seeded scheduler decides which consumer steps next; independent parse of the file as oracle",
     "mc": "Alignment.align_molecules -> minimize_molecules -> python Monte-Carlo loop under the random seam (seeded stream + override script); call-through monitors on Chi2Calculator / accept_metropolis / move_mol_atom / find_atom_random_displ / rotation_matrix; reference model of the loop bookkeeping",
     "xmap": "one ExchangeMap under a generated call / rejection / mutation history; reference model of the map; fresh-map differential; in-situ monitor on every frame; random seam for the frame completion of 1-/2-atom references",
@@ -309,3 +310,23 @@ _reg("C12", engine="grosys", level="exploration",
      components={"SystemGro": REAL, "GroFile reader (seek_atom / next)": REAL, "file": "real tmpfs file; the shared cursor is the library's own"},
      schedule_dimension="which consumer of the shared file handle steps next",
      probes=["two_live_iterators_mid_file", "negative_step_slice", "equal_name_different_size_adjacent"])
+
+
+_reg("C18", engine="alias", level="exploration",
+     runs={"quick": 3000, "thorough": 200000}, block=25,
+     technique="seeded operation histories over an aliasing object graph, refinement-checked after every operation against a storage-cell model (copies: fresh cells, views: shared cells)",
+     level_text=("Sampled histories of 6..40 operations {copy, deep_copy, atom/residue copies, live views by index / negative index / "
+                 "iteration, molecules handed out by a System built from real files (index, iteration, slice, same index twice), "
+                 "molecules stored by an Alignment, move, move_to, rotate, set positions / velocities (incl. None) / atom numbers / "
+                 "residue numbers, names and residue names, assignment through a view incl. in-place +=} over single- and "
+                 "multi-residue molecules.  After EVERY operation every tracked object's coordinates, velocities, numbers and names "
+                 "are compared with the model: bitwise for everything the operation did not address, 1e-9 for what it did; plus "
+                 "centre displacement and distance preservation for rigid operations."),
+     level_note=("Trusted: the cell model (engines/alias.py).  Names / residue names are only changed on molecules whose topology the "
+                 "model says is unshared (deep copies, fresh molecules): shallow copies share their topology by documented design and "
+                 "the property claims name isolation for deep copies only.  Arrays given to setters are fresh (no caller-side aliasing)."),
+     rule="one run = one history; non-trivial = the history ran to its end; distinct = distinct sequences of (operation, target kind)",
+     components={"Atom/AtomGro/Residue/Molecule/MoleculeTop": REAL, "System/SystemGro + parsers": REAL + " (real files on tmpfs)",
+                 "Alignment setters": REAL},
+     schedule_dimension="order of copy / view / mutate operations over the object graph",
+     probes=["rigid_op_on_multi_residue", "assignment_through_view", "system_handout", "alignment_stored", "names_changed_on_unshared_topology"])
